@@ -4,7 +4,8 @@ from props import cg, rt
 ENGINE = 'genscan+mirfacts'
 EXPLANATION = ('Clause claim. On generated code (every corpus definition, both back ends): the error arm of _get_action ends the span at end_to_boundary(max(offset of the fatal byte, start + 1)) and yields '
                'the default error / error callback; every reachable state can still reach a recording state (trim automaton: the walk dies at the first non-viable byte). On MIR: end_to_boundary stores '
-               'find_boundary(offset) only, find_boundary for str rounds forward to a char boundary and is the identity for bytes, next() resumes at the previous end; in Graph::new a late accept is cleared only under a predicate universal over the predecessors (M-C02g), so no viable path loses its only recording state before dead-end pruning. Not decided: that the trim automaton\'s viable prefixes are exactly those of the patterns (C01).')
+               'find_boundary(offset) only, find_boundary for str rounds forward to a char boundary and is the identity for bytes, next() resumes at the previous end; in Graph::new a late accept is cleared only under a predicate universal over the predecessors (M-C02g), so no viable path loses its only recording state before dead-end pruning. Not decided: that the trim automaton\'s viable prefixes are exactly those of the patterns (C01).'
+               ' Since the E5 engine: per definition, the graph is compared with the regex-automata DFA it was built from (G20): the walk stops exactly where the reference can no longer reach a match (kinds stop-early / overrun), and the generated code equals that graph (G19).')
 
 
 def run(ctx, rep):
